@@ -103,6 +103,14 @@ class _DetSet:
 _CURRENT = threading.local()
 
 
+class _WouldBlock(Exception):
+    """A helper thread run by the engine reached Process.wait() on a live process"""
+
+    def __init__(self, pid):
+        super().__init__(pid)
+        self.pid = pid
+
+
 class _CaseAborted(Exception):
     """The case cannot go on (a token could not even be opened): the violation is recorded"""
 
@@ -266,6 +274,17 @@ def install():
     def wait(self):
         ct = getattr(_CURRENT, "ct", None)
         if ct is None:
+            # a helper thread fired by the engine must never block the engine: if the process it
+            # wants to wait for is still alive, the thread is put back and fired again (from its
+            # start) once that process is gone
+            import psutil
+
+            try:
+                alive = self._process.is_running() and self._process.status() != psutil.STATUS_ZOMBIE
+            except psutil.Error:
+                alive = False
+            if alive and ENG is not None:
+                raise _WouldBlock(self._process.pid)
             return real_wait(self)
         pid = self._process.pid
         if pid in ct.eng.live_pids:
@@ -1041,6 +1060,12 @@ def _run_one(case, scratch, run_index, done_before, prev=None, xp_name=None, end
                 eng.pending.remove(ev)
                 try:
                     ev.fn()
+                except _WouldBlock as wb:
+                    import psutil
+
+                    pid = wb.pid
+                    eng.notes.add("helper-thread-waits-for-a-live-process")
+                    eng.add_event(ev.kind, ev.label, ev.fn, enabled=lambda: not psutil.pid_exists(pid) or psutil.Process(pid).status() == psutil.STATUS_ZOMBIE, **ev.meta)
                 except Exception as e:
                     if ev.kind == "fs":
                         tb = traceback.extract_tb(e.__traceback__)
